@@ -331,4 +331,6 @@ class Pipelines(Harness):
         return None if order == sorted(order) else f"{desc}: records not in genome order"
 
 
-HARNESSES = [Reductions(), Rechunk(), Pipelines()]
+from checks.C12 import GroupbyChunks      # chunking-independence of the streamed groupby (shared with C12)
+
+HARNESSES = [Reductions(), Rechunk(), Pipelines(), GroupbyChunks()]
